@@ -184,6 +184,13 @@ def function_cases(thorough):
     two = [s(''), s('a'), s('abc'), s('b'), s('c'), s('bc'), s('aXbXc'), s('X'), A, num(1)]
     for f in ('starts-with', 'contains', 'substring-before', 'substring-after'):
         out += [fn(f, x, y) for x in two for y in two]
+    # every haystack of length <= 5 (6 thorough) and every needle of length 1..3 over {a, b}: needles that overlap themselves,
+    # matches that start inside a failed partial match, matches at the very end
+    import itertools as _it
+    hay = [''.join(t) for n in range(1, 7 if thorough else 6) for t in _it.product('ab', repeat=n)]
+    needles = [''.join(t) for n in range(1, 4) for t in _it.product('ab', repeat=n)]
+    for f in ('contains', 'substring-before', 'substring-after', 'starts-with'):
+        out += [fn(f, s(h), s(nd)) for h in hay for nd in needles if len(nd) <= len(h)]
     out += [fn('concat', x, y) for x in two[:5] for y in two[:5]]
     out += [fn('concat', s('a'), num(1), fn('true')), fn('concat', A, s('-'), X_, s('-'), EMPTY)]
     starts = numv
